@@ -20,7 +20,9 @@ class AsyncSocket(base_socket.BaseSocket):
             raise exceptions.QueueEmpty()
         if packets == [None]:
             return []
-        while True:
+        # do not put more packets in a payload than this package's client is
+        # willing to decode
+        while len(packets) < payload.Payload.max_decode_packets:
             try:
                 pkt = self.queue.get_nowait()
                 self.queue.task_done()
